@@ -8,8 +8,8 @@ Attribute assignment, a constructor keyword (`has_traits_init` →
 Notification (C02) and defaults (C10) belong to the `attr` cluster.
 -/
 import TraitsVerif.Model.Domain
-namespace TraitsVerif.Model.Assign
-open TraitsVerif TraitsVerif.Py TraitsVerif.Model
+namespace TraitsVerif.Model.Val.Assign
+open TraitsVerif TraitsVerif.Py.Value TraitsVerif.Model.Val
 
 /-- The traits a class declares, by attribute name. -/
 abbrev ClassDef := List (String × TraitType)
@@ -74,4 +74,4 @@ def run (cls : ClassDef) : State → List (String × Val) → State
   | st, [] => st
   | st, (n, v) :: ops => run cls (step E cls st n v).1 ops
 
-end TraitsVerif.Model.Assign
+end TraitsVerif.Model.Val.Assign
